@@ -405,6 +405,25 @@ def run_comp(case):
         if fingerprint(comp) != fp0:
             return Outcome(failure("mutated_input", "RigidCluster.scatterers modified the original Spheres"))
         return Outcome(None, len(members) >= 2 and abs(math.sin(be)) > 1e-3, labels)
+    # --- arguments that are not a translation vector / an angle triple are refused (InvalidScatterer, as the code documents),
+    # never interpreted as something else
+    from holopy.scattering.errors import InvalidScatterer
+    bad_calls = [("translated(5.0)", lambda o_: o_.translated(5.0)), ("translated((1.0, 2.0))", lambda o_: o_.translated((1.0, 2.0))),
+                 ("translated(1.0, None, 3.0)", lambda o_: o_.translated(1.0, None, 3.0)), ("translated(1.0, 2.0)", lambda o_: o_.translated(1.0, 2.0)),
+                 ("rotated(0.5)", lambda o_: o_.rotated(0.5)), ("rotated(0.5, 0.25)", lambda o_: o_.rotated(0.5, 0.25))]
+    nm_, call_ = bad_calls[len(members) % len(bad_calls)]
+    for target, tname in ((comp, top), (comp.scatterers[0], "member")):
+        if nm_.startswith("rotated") and tname == "member":
+            continue          # a sphere's rotated() takes three angles and ignores them
+        try:
+            r_ = call_(target)
+        except InvalidScatterer:
+            continue
+        except (TypeError, ValueError, IndexError):
+            continue          # refused, if not with the documented exception type
+        return Outcome(failure("malformed_motion_accepted", "%s.%s is accepted and returns centres %r (original %r)"
+                               % (tname, nm_, [list(map(float, c_)) for c_ in leaf_centers(r_)][:3], [list(map(float, c_)) for c_ in leaf_centers(target)][:3]),
+                               call=nm_.split("(")[0]), True, labels)
     # --- translation
     if case["form"] == "three_args":
         tr = comp.translated(float(vec[0]), float(vec[1]), float(vec[2]))
